@@ -52,7 +52,7 @@ KF_PRE = "requested-core-already-waiting-masks-miss"
 
 
 def plan(tier):
-    n = 60 if tier == "quick" else 4000
+    n = 600 if tier == "quick" else 16000
     return [(c, n) for c in CLASSES]
 
 
